@@ -348,7 +348,7 @@ def error_classes(eng, col):
 
 
 def build_base(doc):
-  """The document before any case: T(a, b | F, G, H, X, K, R) with doc.rows; X stands BEFORE K."""
+  """The document before any case: T(a, b | F, G, H, X, K, R) with doc.rows."""
   eng = adapter.new_engine()
   known = {k["col"]: spell(k["tree"], "dollar") for k in doc["known"]}
   def fcol(cid, formula):
